@@ -167,6 +167,33 @@ def number_nondividing_items(rng, n):
     return items
 
 
+def repeated_group_number_items(rng, n):
+    """a parenthesised group that contains a number and is written identically in several places (what common-subexpression
+    elimination looks for): the number stays a fresh axis of that length - on tensors that fit and on tensors that do not"""
+    items = []
+    while len(items) < n:
+        K, m, cc = rng.choice([2, 3, 4]), rng.choice([1, 2, 3]), rng.choice([2, 3])
+        first = K * m + (1 if rng.random() < 0.5 else 0)            # half of the tensors do not fit
+        nm = rng.sample(["a", "b", "c", "d"], 2)
+        B_, C_ = nm
+        which = rng.choice(["id", "add", "sum", "nested"])
+        # every written number is an axis of its own: the long form names them n, m, k
+        if which == "id":
+            op, short, long_, arrays = "id", f"({B_} {K}) {C_} -> {C_} ({B_} {K})", f"({B_} n) {C_} -> {C_} ({B_} m)", [gencalls.int_data(rng, (first, cc))]
+        elif which == "add":
+            op, short, long_ = "add", f"({B_} {K}) {C_}, ({B_} {K}) -> {C_} ({B_} {K})", f"({B_} n) {C_}, ({B_} m) -> {C_} ({B_} k)"
+            arrays = [gencalls.int_data(rng, (first, cc)), gencalls.int_data(rng, (first,))]
+        elif which == "sum":
+            op, short, long_, arrays = "sum", f"({B_} {K}) [{C_}] -> ({B_} {K})", f"({B_} n) [{C_}] -> ({B_} m)", [gencalls.int_data(rng, (first, cc))]
+        else:
+            op, short, long_ = "id", f"{C_} ({B_} {K}) -> ({C_} ({B_} {K}))", f"{C_} ({B_} n) -> ({C_} ({B_} m))"
+            arrays = [gencalls.int_data(rng, (cc, first))]
+        fam = "elementwise" if op == "add" else ("reduce" if op == "sum" else "id")
+        c = gencalls.Call(fam, op, [], [], arrays, desc=short)
+        items.append((c, "number_in_repeated_group", short, {}, long_, {k: K for k in ("n", "m", "k") if f" {k})" in long_}))
+    return items
+
+
 def pair_ellipsis(c, rng, anonymous):
     """an ellipsis = its written-out repetition; anonymous '...' = one shared named ellipsis"""
     if c.family not in ("elementwise", "reduce", "id", "preserve"):
@@ -414,7 +441,7 @@ def make_items(rng, n):
         if p is None:
             continue
         items.append((c,) + p)
-    return items + ellipsis_implicit_items(rng, max(8, n // 25)) + sized_ellipsis_items(rng, max(8, n // 25)) + number_nondividing_items(rng, max(8, n // 25))
+    return items + ellipsis_implicit_items(rng, max(8, n // 25)) + sized_ellipsis_items(rng, max(8, n // 25)) + number_nondividing_items(rng, max(8, n // 25)) + repeated_group_number_items(rng, max(12, n // 25))
 
 
 def run(ctx):
